@@ -27,25 +27,29 @@ Proof.
 Qed.
 
 (* ---------------------------------------------------------------- the readers of the finished models *)
-From GoMC Require Props.C05 Props.C06 Props.C07 Props.C16 Props.C11 Props.C01.
+(* the robustness lemmas behind C05_robust32/64, C06_robust, C07_robust, C16_robust, C11_read_robust, C01_robust
+   (Props/Cxx.v state them with `exact` of these; importing the Proofs files keeps this development independent
+   of the translated-function tie files the Props files of those properties also load) *)
+From GoMC Require Proofs.C05 Proofs.C06_read Proofs.C07 Proofs.C16 Proofs.C11_wire Proofs.C01.
 From GoMC Require Model.C05 Model.C06 Model.C07 Model.C16 Model.C11 Model.C01.
 
 Lemma fixedbitset_robust old : robust (d_fixedbitset old).
 Proof. constructor. intros. constructor. Qed.
 
-Lemma rb_varint : robust d_varint. Proof. exact Props.C05.C05_robust32. Qed.
-Lemma rb_varlong : robust d_varlong. Proof. exact Props.C05.C05_robust64. Qed.
-Lemma rb_field fuel t old : robust (d_field fuel t old). Proof. apply Props.C06.C06_robust. Qed.
-Lemma rb_frame inflate thr pool old : robust (d_frame inflate thr pool old). Proof. apply Props.C07.C07_robust. Qed.
-Lemma rb_rcon : robust d_rcon. Proof. exact Props.C16.C16_robust. Qed.
-Lemma rb_bits old : robust (d_bits old). Proof. apply Props.C11.C11_read_robust. Qed.
-Lemma rb_nbt_any f fuel : robust (d_nbt_any f fuel). Proof. apply (Props.C01.C01_robust f fuel). Qed.
-Lemma rb_nbt_map f fuel : robust (d_nbt_map f fuel). Proof. apply (Props.C01.C01_robust f fuel). Qed.
-Lemma rb_nbt_skip f fuel : robust (d_nbt_skip f fuel). Proof. apply (Props.C01.C01_robust f fuel). Qed.
-Lemma rb_nbt_raw f fuel : robust (d_nbt_raw f fuel). Proof. apply (Props.C01.C01_robust f fuel). Qed.
-Lemma rb_nbt_dyn f fuel : robust (d_nbt_dyn f fuel). Proof. apply (Props.C01.C01_robust f fuel). Qed.
-Lemma rb_nbt_snbt f fuel : robust (d_nbt_snbt f fuel). Proof. apply (Props.C01.C01_robust f fuel). Qed.
-Lemma rb_nbt_ty f fuel ty : robust (d_nbt_ty f fuel ty). Proof. apply (Props.C01.C01_robust f fuel). Qed.
+Lemma rb_varint : robust d_varint. Proof. exact Proofs.C05.read32_robust. Qed.
+Lemma rb_varlong : robust d_varlong. Proof. exact Proofs.C05.read64_robust. Qed.
+Lemma rb_field fuel t old : robust (d_field fuel t old). Proof. apply Proofs.C06_read.read_f_robust. Qed.
+Lemma rb_frame inflate thr pool old : robust (d_frame inflate thr pool old). Proof. apply Proofs.C07.unpack_robust. Qed.
+Lemma rb_rcon : robust d_rcon. Proof. exact Proofs.C16.rcon_read_robust. Qed.
+Lemma rb_bits old : robust (d_bits old). Proof. apply Proofs.C11_wire.read_robust. Qed.
+Import Proofs.C01.
+Lemma rb_nbt_any f fuel : robust (d_nbt_any f fuel). Proof. apply Proofs.C01.Decode_robust; intros; auto with rb. Qed.
+Lemma rb_nbt_map f fuel : robust (d_nbt_map f fuel). Proof. apply Proofs.C01.Decode_robust; intros; auto with rb. Qed.
+Lemma rb_nbt_skip f fuel : robust (d_nbt_skip f fuel). Proof. apply Proofs.C01.Decode_robust; intros; auto with rb. Qed.
+Lemma rb_nbt_raw f fuel : robust (d_nbt_raw f fuel). Proof. apply Proofs.C01.Decode_robust; intros; auto with rb. Qed.
+Lemma rb_nbt_dyn f fuel : robust (d_nbt_dyn f fuel). Proof. apply Proofs.C01.Decode_robust; intros; auto with rb. Qed.
+Lemma rb_nbt_snbt f fuel : robust (d_nbt_snbt f fuel). Proof. apply Proofs.C01.Decode_robust; intros; auto with rb. Qed.
+Lemma rb_nbt_ty f fuel ty : robust (d_nbt_ty f fuel ty). Proof. apply Proofs.C01.Decode_robust; intros; apply Proofs.C01.dec_ty_robust. Qed.
 
 (* ---------------------------------------------------------------- the encoders *)
 Lemma ws_varint z : writer_safe (varint_calls z) (Model.C05.write32 z).
